@@ -275,7 +275,7 @@ CORPUS = [
 ]
 
 SIZES = {"quick": {"lit": 9000, "str": 800, "arith": 3500, "cmp": 1500, "nth": 600},
-         "thorough": {"lit": 150000, "str": 8000, "arith": 60000, "cmp": 20000, "nth": 6000}}
+         "thorough": {"lit": 70000, "str": 4000, "arith": 28000, "cmp": 9000, "nth": 3000}}
 
 
 def gen_cases(ck, tier):
@@ -488,7 +488,7 @@ def run(tier, seed):
             and tier == "quick":
         log("[C07] proof or correspondence broken: enlarging the search")
         big = gen_cases(ck, "thorough")
-        failing += evaluate(ck, big[len(CORPUS):len(CORPUS) + 60000], pool, direct_only=True)
+        failing += evaluate(ck, big[len(CORPUS):len(CORPUS) + 40000], pool, direct_only=True)
     failing.sort(key=lambda f: (f["size"], len(f["source"])))
     reported = 0
     for f in failing:
